@@ -161,6 +161,14 @@ impl Curve for K256 {
 
     fn batch_normalize(p: &[Self], q: &mut [Self::AffineRepr]) {
         assert_eq!(p.len(), q.len());
+        // The batched inversion of the underlying implementation cannot handle the
+        // identity (whose z-coordinate is zero).
+        if p.iter().any(|pt| bool::from(pt.is_identity())) {
+            for (dst, src) in q.iter_mut().zip(p.iter()) {
+                *dst = src.to_affine();
+            }
+            return;
+        }
         let inner: Vec<ProjectivePoint> = p.iter().map(|pt| pt.0).collect();
 
         let affine_points: Vec<AffinePoint> =
